@@ -25,6 +25,7 @@ func c16Gen(seed uint64, run int, tier string) *Case {
 	c.Cfg["maxsteps"] = 3000000
 	c.Cfg["msize"] = int64(r.Pick(8192, 16384, 65536))
 	c.Cfg["dotu"] = int64(r.Intn(2))
+	c.Cfg["printdbg"] = int64(r.Pick(0, 0, 0, 1)) // the server traces every message (to nowhere)
 	c.Cfg["entries"] = int64(r.Range(5, 40))
 	c.Cfg["depth"] = int64(r.Pick(3, 8, 40))
 	c.Cfg["nwalks"] = int64(r.Range(10, 40))
